@@ -19,6 +19,8 @@ Violations(e) ==
       [] e.op = "resp_roundtrip" -> RespRoundTripViolations(e.value, e.obs)
       [] e.op = "resp_corrupt"   -> RespRejectViolations(e.cls, e.obs)
       [] e.op = "resp_status_line" -> StatusLineViolations(e.rel, e.obs)
+      [] e.op = "resp_struct"    -> RespStructViolations(e.brk, e.obs)
+      [] e.op = "multipart_struct" -> MultipartStructViolations(e.brk, e.obs)
       [] e.op = "multipart"      -> MultipartViolations(e.value, e.boundary_b, e.obs)
       [] e.op = "multipart_corrupt" -> MultipartRejectViolations(e.cls, e.obs)
       [] e.op = "boundary_param" -> BoundaryParamViolations(e.value, e.obs)
